@@ -2381,6 +2381,12 @@ pub fn new_manager<
             let store = &*gc_mref.0;
             loop {
                 let mut lock = store.gc_signal.0.lock();
+                // The last `ManagerRef` may have been dropped before we got
+                // here. In this case, the notification is lost, so we need to
+                // check the signal before waiting.
+                if *lock == GCSignal::Quit {
+                    break;
+                }
                 store.gc_signal.1.wait(&mut lock);
                 if *lock == GCSignal::Quit {
                     break;
